@@ -125,8 +125,10 @@ Definition cstep (st : Z * cache) (o : cop) : (Z * cache) * list cout :=
   | CLookup n ty => (st, [OLookup (lookup n ty c)])
   end.
 
-Fixpoint crun (st : Z * cache) (ops : list cop) : list cout :=
+(* outputs grouped per operation *)
+Fixpoint crun_g (st : Z * cache) (ops : list cop) : list (list cout) :=
   match ops with
   | [] => []
-  | o :: ops' => let '(st', out) := cstep st o in out ++ crun st' ops'
+  | o :: ops' => let '(st', out) := cstep st o in out :: crun_g st' ops'
   end.
+Definition crun (st : Z * cache) (ops : list cop) : list cout := concat (crun_g st ops).
